@@ -2,7 +2,7 @@
 # usage: evalseed.sh <patch.diff> <name> <prop> [<prop>...]
 # Development aid: applies a seeded change to a scratch worktree of /repo (never to /repo
 # itself), runs the given checks' quick tier against that worktree and removes the worktree.
-patch=$1; name=$2; shift 2
+patch=$(readlink -f "$1"); name=$2; shift 2
 wt=/tmp/evalseed-$name
 git -C /repo worktree remove --force $wt >/dev/null 2>&1
 git -C /repo worktree add -q $wt HEAD || exit 2
